@@ -27,6 +27,8 @@ class Plan:
         self.unshimmed = []
         self.fired = None
         self.on_event = None       # optional online monitor called right before every event
+        self.raised_exc = None     # the OSError instance raised in 'raise' mode
+        self.fired_in_chain_build = False
 
     def ev(self, kind, detail=''):
         self.n += 1
@@ -43,7 +45,14 @@ class Plan:
             if self.mode == 'kill':
                 os._exit(137)
             if self.mode == 'raise':
-                raise OSError(errno.EIO, 'injected I/O error before %s' % kind)
+                fr = sys._getframe(1)
+                while fr is not None:       # was the flow still being chained (step construction)?
+                    if fr.f_code.co_name in ('_chain', '_preprocess_chain', '__init__'):
+                        self.fired_in_chain_build = True
+                        break
+                    fr = fr.f_back
+                self.raised_exc = OSError(errno.EIO, 'injected I/O error before %s' % kind)
+                raise self.raised_exc
 
 
 class FileProxy:
